@@ -190,6 +190,30 @@ def check(rep, F, tier, replay=None):
     placeholder_full_rule(rep, F)
     from ruleutil import ref_size_pass_rule
     ref_size_pass_rule(rep, F)
+    # REFSIZE-keep: registering a plain reference input never lowers the script size recorded for the same input
+    rep.rule("REFSIZE-keep", "TransactionBuilder::add_reference_input records size 0 only for an input that is not registered yet (entry / or_insert): it cannot overwrite the size stored by add_script_reference_input, which the reference-script fee is computed from")
+    fid = find_fn(rep, F, "TransactionBuilder::add_reference_input")
+    if fid:
+        rep.inst("REFSIZE-keep")
+        tos = [(c.to or "") for c in F.calls(fid)]
+        if any(("HashMap::<" in t or "BTreeMap::<" in t) and t.endswith("::insert") for t in tos) and not any(t.rsplit("::", 1)[-1] in ("contains_key", "get", "entry") for t in tos):
+            rep.violation("REFSIZE-keep", "TransactionBuilder::add_reference_input|overwrites", "add_reference_input stores size 0 with an overwriting insert: after add_script_reference_input(x, n) a later add_reference_input(x) erases n and the reference-script fee for x disappears from min_fee (fee below the ledger minimum)", {})
+        elif not any(t.rsplit("::", 1)[-1] in ("or_insert", "or_insert_with", "or_default", "insert", "try_insert") for t in tos):
+            rep.lost("add_reference_input no longer stores into the reference-input map (re-anchor REFSIZE-keep)")
+    # SIB-refsize: the sized reference inputs of a mint cover every kind of script source its plain reference inputs cover
+    rep.rule("SIB-refsize", "MintBuilder::get_script_ref_inputs_with_size (what the reference-script fee is computed from) handles every ScriptMint variant that MintBuilder::get_ref_inputs (what is put into the body) handles")
+    a_ = F.by_key("MintBuilder::get_script_ref_inputs_with_size")
+    b_ = F.by_key("MintBuilder::get_ref_inputs")
+    if len(a_) == 1 and len(b_) == 1:
+        rep.inst("SIB-refsize")
+        va = {v for m in wildarms.matches_with_wild(F, a_[0]) if m["enum"] == "ScriptMint" for v in m["explicit"]}
+        vb = {v for m in wildarms.matches_with_wild(F, b_[0]) if m["enum"] == "ScriptMint" for v in m["explicit"]}
+        if not vb:
+            rep.lost("MintBuilder::get_ref_inputs no longer matches on ScriptMint")
+        elif vb - va:
+            rep.violation("SIB-refsize", "MintBuilder|%s" % ",".join(sorted(vb - va)), "MintBuilder::get_ref_inputs puts the reference input of a %s mint script into the body, but get_script_ref_inputs_with_size does not report its size: the reference-script fee for that script is missing from min_fee" % "/".join(sorted(vb - va)), {})
+    else:
+        rep.lost("MintBuilder reference-input functions not found")
     return rep.finish(
         EXPLANATION,
         ["fees::min_fee / min_script_fee / min_ref_script_fee compute the ledger formulas (C15)", "fake witnesses have the byte size of real ones (fakes.rs constants)", "the signer union being complete per source is C18's matrix"],
